@@ -33,11 +33,12 @@ Inductive permission :=
 | PermGod
 | PermText
 | PermParams (acs : list allowed_change)
-| PermOther.              (* SoftwareUpgrade / Community* permissions: allow none of the modelled contents *)
+| PermOther.              (* SoftwareUpgradePermission: allows software-upgrade proposals only *)
 
 Inductive content :=
 | CText
 | CParam (changes : list (pref * option json))   (* value None: text that is not JSON *)
+| CUpgrade (h : Z)        (* SoftwareUpgradeProposal with plan height h *)
 | CCommitteeChange.       (* routed to "committee", which the committee router does not have *)
 
 Definition str_in (k : string) (l : list string) : bool := existsb (String.eqb k) l.
@@ -173,6 +174,7 @@ Definition perm_allows (pm : permission) (ps : list json) (c : content) : option
   | PermGod, _ => Some true
   | PermText, CText => Some true
   | PermParams acs, CParam chs => all_changes_allowed acs ps chs
+  | PermOther, CUpgrade _ => Some true
   | _, _ => Some false
   end.
 
@@ -335,22 +337,27 @@ Fixpoint run_changes (sls : list slot) (ps : list json) (chs : list (pref * opti
       end
   end.
 
-(* the routed handler; CCommitteeChange has no route and is never run *)
-Definition run_handler (sls : list slot) (ps : list json) (c : content) : outcome (list json) unit :=
+(* the routed handler at block height [ht]; CCommitteeChange has no route and is
+   never run.  The upgrade handler (x/upgrade ScheduleUpgrade) refuses a plan
+   whose height is below the current block height; its effect, the stored plan, is applied
+   by [enact_state] below. *)
+Definition run_handler (sls : list slot) (ht : Z) (ps : list json) (c : content) : outcome (list json) unit :=
   match c with
   | CText => Ok ps tt
   | CParam chs => run_changes sls ps chs
+  | CUpgrade h => if (h <=? 0) || (h <? ht) then Err else Ok ps tt
   | CCommitteeChange => Err
   end.
 
 (* keeper.ValidatePubProposal: ValidateBasic, route exists, dry run on a cached
    context with panics recovered *)
-Definition validate_pub (sls : list slot) (ps : list json) (c : content) : bool :=
+Definition validate_pub (sls : list slot) (ht : Z) (ps : list json) (c : content) : bool :=
   match c with
   | CText => true
   | CParam chs =>
       negb (is_nil chs)
       && match run_changes sls ps chs with Ok _ _ => true | _ => false end
+  | CUpgrade h => negb ((h <=? 0) || (h <? ht))
   | CCommitteeChange => false
   end.
 
@@ -384,13 +391,19 @@ Record state := mkState {
   next_id : nat;
   bals : list Z;               (* tally-denom balance per account *)
   supply : Z;                  (* tally-denom supply *)
-  now : Z                      (* block time, seconds *)
+  now : Z;                     (* block time, seconds *)
+  height : Z;                  (* block height *)
+  plan : Z                     (* height of the scheduled upgrade plan, 0 = none *)
 }.
 
 Definition set_params (s : state) (ps : list json) : state :=
-  mkState ps (coms s) (props s) (votes s) (next_id s) (bals s) (supply s) (now s).
+  mkState ps (coms s) (props s) (votes s) (next_id s) (bals s) (supply s) (now s) (height s) (plan s).
 Definition set_pv (s : state) (pr : list proposal) (vs : list vote) : state :=
-  mkState (params s) (coms s) pr vs (next_id s) (bals s) (supply s) (now s).
+  mkState (params s) (coms s) pr vs (next_id s) (bals s) (supply s) (now s) (height s) (plan s).
+(* what a successful handler run leaves behind *)
+Definition enact_state (s : state) (c : content) (ps : list json) : state :=
+  mkState ps (coms s) (props s) (votes s) (next_id s) (bals s) (supply s) (now s) (height s)
+          (match c with CUpgrade h => h | _ => plan s end).
 
 Definition find_com (s : state) (id : nat) : option committee :=
   find (fun c => Nat.eqb (c_id c) id) (coms s).
@@ -435,10 +448,12 @@ Definition attempt_enact (sls : list slot) (s : state) (p : proposal) : outcome 
       | None => Panic
       | Some false => Ok s Invalid
       | Some true =>
-          if negb (validate_pub sls (params s) (p_content p)) then Ok s Invalid
+          (* the dry run on a cached context ... *)
+          if negb (validate_pub sls (height s) (params s) (p_content p)) then Ok s Invalid
           else
-            match run_handler sls (params s) (p_content p) with
-            | Ok ps _ => Ok (set_params s ps) Passed
+            (* ... then the real run, whose failure would be a panic *)
+            match run_handler sls (height s) (params s) (p_content p) with
+            | Ok ps _ => Ok (enact_state s (p_content p) ps) Passed
             | _ => Panic                      (* "unexpected handler error" *)
             end
       end
@@ -545,9 +560,9 @@ Definition step (sls : list slot) (s : state) (o : op) : outcome state out :=
       end
   | OApply c =>
       match c with
-      | CCommitteeChange => Err
-      | _ => if validate_pub sls (params s) c
-             then match run_handler sls (params s) c with
+      | CCommitteeChange | CUpgrade _ => Err       (* the upgrade handler is not driven directly *)
+      | _ => if validate_pub sls (height s) (params s) c
+             then match run_handler sls (height s) (params s) c with
                   | Ok ps _ => Ok (set_params s ps) OutNone
                   | _ => Err
                   end
@@ -562,10 +577,10 @@ Definition step (sls : list slot) (s : state) (o : op) : outcome state out :=
           | None => Panic
           | Some false => Err
           | Some true =>
-              if negb (validate_pub sls (params s) c) then Err else
+              if negb (validate_pub sls (height s) (params s) c) then Err else
               let p := mkProp (next_id s) cid (now s + c_duration cm) c in
               Ok (mkState (params s) (coms s) (props s ++ [p]) (votes s) (S (next_id s))
-                          (bals s) (supply s) (now s))
+                          (bals s) (supply s) (now s) (height s) (plan s))
                  (OutId (next_id s))
           end
       end
@@ -589,7 +604,7 @@ Definition step (sls : list slot) (s : state) (o : op) : outcome state out :=
       end
   | OBegin t =>
       if t <? now s then Err else
-      let s0 := mkState (params s) (coms s) (props s) (votes s) (next_id s) (bals s) (supply s) t in
+      let s0 := mkState (params s) (coms s) (props s) (votes s) (next_id s) (bals s) (supply s) t (height s + 1) (plan s) in
       match process_proposals sls s0 with
       | Ok s1 evs => Ok s1 (OutClosed evs)
       | _ => Panic
@@ -598,18 +613,18 @@ Definition step (sls : list slot) (s : state) (o : op) : outcome state out :=
       if (0 <? x) && (x <=? bal_of s a) && Nat.ltb a (List.length (bals s)) && Nat.ltb b (List.length (bals s)) then
         let b1 := set_nth a (bal_of s a - x) (bals s) in
         let b2 := set_nth b (nth b b1 0 + x) b1 in
-        Ok (mkState (params s) (coms s) (props s) (votes s) (next_id s) b2 (supply s) (now s)) OutNone
+        Ok (mkState (params s) (coms s) (props s) (votes s) (next_id s) b2 (supply s) (now s) (height s) (plan s)) OutNone
       else Err
   | OSetCommittee c =>
       if negb (committee_valid c) then Err else
       let '(s1, evs) := close_all_of s (c_id c) in
       Ok (mkState (params s1) (com_put c (coms s1)) (props s1) (votes s1) (next_id s1)
-                  (bals s1) (supply s1) (now s1))
+                  (bals s1) (supply s1) (now s1) (height s1) (plan s1))
          (OutClosed evs)
   | ODeleteCommittee id =>
       let '(s1, evs) := close_all_of s id in
       Ok (mkState (params s1) (filter (fun c => negb (Nat.eqb (c_id c) id)) (coms s1)) (props s1)
-                  (votes s1) (next_id s1) (bals s1) (supply s1) (now s1))
+                  (votes s1) (next_id s1) (bals s1) (supply s1) (now s1) (height s1) (plan s1))
          (OutClosed evs)
   end.
 
@@ -687,7 +702,8 @@ Record obs := mkObs {
   o_props : list (nat * nat * Z);       (* raw proposal store: (id, committee, deadline) *)
   o_votes : list (nat * nat * Z);       (* raw vote store: (proposal, voter, type), sorted *)
   o_next : nat;
-  o_bals : list Z
+  o_bals : list Z;
+  o_plan : Z                            (* height of the stored upgrade plan, 0 = none *)
 }.
 
 Definition field_eqb (a b : field) : bool :=
@@ -726,7 +742,8 @@ Definition proj_ok (s : state) (sh : list json) (ob : obs) : bool :=
   && list_eqb (fun v q => Nat.eqb (v_pid v) (fst (fst q)) && Nat.eqb (v_voter v) (snd (fst q)) && (v_type v =? snd q))
        (votes s) (o_votes ob)
   && Nat.eqb (next_id s) (o_next ob)
-  && list_eqb Z.eqb (bals s) (o_bals ob).
+  && list_eqb Z.eqb (bals s) (o_bals ob)
+  && (plan s =? o_plan ob).
 
 Fixpoint first_mismatch (sls : list slot) (s : state) (sh : list json) (h : list (op * obs)) (i : nat) : option nat :=
   match h with
